@@ -17,11 +17,27 @@ PROPS = {
         assumptions=["model positions out of range are no-ops (unreachable under the proved invariant Inv)"],
         explanation="Refinement proof: concrete slots+tombstones+index model of ordered/map.go refines a list of pairs for every history (theorems C05_*), tied to the code by observer-level correspondence on exhaustive short and random long histories plus a direct list-of-pairs oracle in Go.",
     ),
+    "C15": dict(
+        level="proof",
+        gen=True,
+        corr_name="step-kind selection (driver mode c15)",
+        trusted_base=COMMON_TB + [
+            "fact translator harness/cmd/extract/stepkinds.go (go/ast) regenerates Gen/StepKinds.lean from stepByType, stepByKeyInference, NewScalarStep on every run",
+            "typed decoding after selection is outside this model (C16/C03); the correspondence supplies well-typed values",
+        ],
+        explanation="Decision-table proof over regenerated tables: select typeTable inferTable = documented rule for all key sets and all type values; extra keys irrelevant. Correspondence: full 2^10 x 18 table through the real stepFromMap.",
+    ),
 }
 
 NOT_APPLICABLE = {}
 
 MANIFEST_TEXT = {
+    "C15": dict(
+        text="Kernel-checked proof (Lean 4) that the step-kind tables regenerated from steps.go/step_scalar.go on every run, interpreted with first-match semantics, equal the documented rule for every key set and every type value (string or not), that failures carry the documented sentinels and never another known kind, and that keys outside the ten kind keys never change the decision. Tied to the code by the go/ast table translator and by enumerating the complete key-subset x type table (plus adversarial extra keys) through the real stepFromMap/unmarshalStep against the model driver and the rule written directly in Go.",
+        design_ref="DESIGN.md §6 C15",
+        note="Trusted: Lean kernel; the table translator (shapes it accepts; an unreadable shape falsifies C15_tables_recognised); the differential correspondence. Typed decoding after selection is covered by C16/C03/C13.",
+        technique="Lean 4 decision-table proof over source-regenerated tables + exhaustive table correspondence",
+    ),
     "C05": dict(
         text="Kernel-checked refinement proof (Lean 4): a slot/tombstone/index model mirroring ordered/map.go satisfies a representation invariant under Set/Replace/Delete/compact and every observer equals its list-of-pairs counterpart, for every operation history from NewMap and the zero value; Equal is total and is exactly pairwise comparison; renames from inside a Range callback equal the sequential rename semantics. The model is tied to the code on every run by observer-level correspondence (exhaustive histories over 3 keys, long random histories crossing the compaction threshold) and a direct list-of-pairs oracle in Go.",
         design_ref="DESIGN.md §6 C05",
